@@ -118,6 +118,8 @@ def recv_replayer(extra, path):
                 obs = canon(real.step(s["act"], s["args"]))
                 exp = dict(s["exp"])
                 exp["delivered"] = c.canon_delivered(exp["delivered"])
+                if not exp["sent1009"] and exp["closed"] and obs["closed"]:
+                    obs["sent1009"] = False     # 1009 is demanded for size violations only; other aborts may carry any close frame
                 if obs != exp:
                     sig = make_sig(cfg, v, path, i, exp, obs)
                     sig["setup"] = "receiver"
